@@ -2,6 +2,7 @@
 # Applies each seeded change to /repo, runs the quick check of its property, restores /repo.
 # Usage: tools/mutants.sh [id-dir ...]   (default: all of seeded/*)
 cd /verif
+if [ -n "$(git -C /repo status --porcelain --untracked-files=no)" ]; then echo "refusing: /repo has uncommitted changes (they would be lost)"; exit 2; fi
 dirs=("$@"); [ ${#dirs[@]} -eq 0 ] && dirs=(seeded/*)
 for d in "${dirs[@]}"; do
   d=${d%/}; [ -f "$d/patch.diff" ] || continue
